@@ -739,6 +739,11 @@ def refresh_foreign_params(ctx):
                 notes.append("%s: no parameter source" % other)
                 return
             _ok, _outs, params, log = run_go_cases(ctx, go, [], tag="params_" + other, timeout=600)
+            xp = getattr(mod, "EXTRA_PARAMS", None)  # parameters a second Go package contributes to the same file
+            if params is not None and xp is not None:
+                more, log2 = xp(ctx)
+                params = None if more is None else list(params) + list(more)
+                log = log2 if more is None else log
             if params is None:
                 notes.append("%s: parameters of %s could not be regenerated from the current tree (%s)"
                              % (ctx.pid, other, log.strip()[-300:]))
